@@ -256,6 +256,20 @@ def run(ctx):
             cons = [c for c in rw.calls if c.name == "consume_items"]
             ctx.ob("R3", "one producer thread group, one consumer", len(spawns) == 1 and len(cons) == 1, "run_worker spawns once and calls consume_items once", where=rw.loc())
 
+    # the consumer stops only when every sender has hung up: the item channel is read with the blocking `recv` (or `iter`), never with
+    # a timeout / non-blocking read whose "nothing yet" would be taken for "nothing more" (findings produced later are lost, and which
+    # ones depends on the schedule)
+    timed = [c for f in prog.fns.values() if f.crate == "ast_grep" for c in f.calls
+             if c.bb in f.live_blocks and re.search(r"mpsc::Receiver::<T>::(recv_timeout|try_recv|recv_deadline|try_iter)$|mpmc::.*::(recv_timeout|try_recv)$", c.best)]
+    ctx.ob("R3", "the item channel is only read with the blocking recv", not timed,
+           "no recv_timeout/try_recv on a channel in the cli" if not timed else
+           "the printing thread reads the channel with %s (%s): a quiet period — a slow file, many files without findings, a stalled reader of --inspect output — ends the consumer while "
+           "walker threads are still producing; their later findings are dropped, the exit status stays 0" % (sorted({c.name for c in timed}), timed[0].fn.id), where=timed[0].fn.loc(timed[0].line) if timed else None)
+    itn = prog.find_fns(r"^<ast_grep::utils::worker::Items<T> as core::iter::traits::iterator::Iterator>::next$")
+    ctx.ob("R3", "Items::next anchor", len(itn) == 1, "found %d" % len(itn))
+    for f in itn:
+        rc = [c for c in f.calls if c.name == "recv" and "Receiver" in c.best]
+        ctx.ob("R3", "Items::next blocks in Receiver::recv", len(rc) == 1, "%d call(s) of Receiver::recv" % len(rc), where=f.loc())
     # ---- R4 -------------------------------------------------------------------------------------
     from . import c11
     table = c11.load_table()
